@@ -368,6 +368,14 @@ func c02Case(r *obs.Run, i int) {
 		switch c := rng.Intn(10); {
 		case c < 5:
 			f := genGFF(rng)
+			if n := len(items); n > 0 && items[n-1].kind == "feature" && len(items[n-1].f.FeatAttributes) > 0 && rng.Intn(3) == 0 {
+				// the line before carries the very same attribute column (and, half of the time, the same comment)
+				f.FeatAttributes = append(gff.Attributes(nil), items[n-1].f.FeatAttributes...)
+				if rng.Intn(2) == 0 {
+					f.Comments = items[n-1].f.Comments
+				}
+				r.Count("gff_features_repeating_the_attribute_column_of_the_line_before", 1)
+			}
 			f0 := c02CopyGFF(f)
 			items = append(items, item{kind: "feature", f: f, f0: f0})
 			desc = append(desc, "feature "+gffBrief(f))
